@@ -15,6 +15,17 @@ then counted under `attributed_to_C14`, not reported here.
 from mc import env  # noqa: F401
 from mc import par
 from mc.report import Report, Acc, exc_sig
+from mc.hist import scramble, scribble
+
+
+def scramble_docs(docs):
+    """rewrite what a parse handed out -- the parsed *content* (parts, their values and attribute lists); the token definition
+    tables a document object points to are shared class-level data by design and are left alone"""
+    for d in docs:
+        for part in list(getattr(d, "parts", [])):
+            scramble(part)
+        scribble(getattr(d, "parts", None))
+
 from mc.oracle import mbxml_ref as R
 
 import itertools
@@ -155,6 +166,12 @@ def run_buffer(docs):
     signal.setitimer(signal.ITIMER_REAL, 2.0)
     try:
         try:
+            # history probe: a first parse whose result the caller then rewrites in place must not influence the next parse of the
+            # same bytes (parse results cached / shared by the library)
+            try:
+                scramble_docs(MBXML.from_bytes(x))
+            except Exception:  # noqa: BLE001
+                pass
             parsed = MBXML.from_bytes(x)
         finally:
             signal.setitimer(signal.ITIMER_REAL, 0)
